@@ -447,7 +447,7 @@ type pending struct {
 
 func run(c *vf.Ctx) {
 	e := setup(c)
-	nCases := c.N(220, 2000)
+	nCases := c.N(220, 1200)
 	batch := 600
 	sampleEvery := c.N(10, 25)
 	var mu sync.Mutex
@@ -615,10 +615,10 @@ func run(c *vf.Ctx) {
 	tick("concurrent", t0)
 	c.Extra("phase_seconds_informational", phase)
 	c.Extra("git_invocations", gitx.Calls.Load())
-	c.Floor("requests", c.Counter("requests_gogit-mem")+c.Counter("requests_gogit-fs"), c.N(400, 4000))
-	c.Floor("git confirmations", c.Counter("git_confirmations"), c.N(25, 100))
-	c.Floor("ok report lines (updates really applied)", c.Counter("ok_lines"), c.N(100, 1000))
-	c.Floor("ng report lines (updates really refused)", c.Counter("ng_lines"), c.N(50, 500))
+	c.Floor("requests", c.Counter("requests_gogit-mem")+c.Counter("requests_gogit-fs"), c.N(400, 2400))
+	c.Floor("git confirmations", c.Counter("git_confirmations"), c.N(25, 60))
+	c.Floor("ok report lines (updates really applied)", c.Counter("ok_lines"), c.N(100, 600))
+	c.Floor("ng report lines (updates really refused)", c.Counter("ng_lines"), c.N(50, 300))
 	c.Assume("the final reference state of filesystem repositories is read straight from loose ref files and packed-refs (git's on-disk format); object presence from loose files / version-2 pack indexes; both readers and the ref writer are validated against git (receive-pack advertisement, for-each-ref, cat-file --batch-check) in every confirmation step")
 	c.Assume("git confirmation: every violation key is replayed against real git receive-pack until confirmed 3 (quick) / 10 (thorough) times per run and storage kind; further hits of an already confirmed key are reported without a git run (process spawns are the bottleneck)")
 	c.Assume("a delete whose old id names no object of the repository is not judged for old-value equality: git itself skips the comparison there (builtin/receive-pack.c sets old_oid = NULL)")
